@@ -909,6 +909,9 @@ func (vc *VC) sliceOp(fr *Frame, x *ssa.Slice) SV {
 		if vc.pure == 0 {
 			// the window difference, spelled out for frame checks (see inWindow)
 			vc.assume("(= (bvsub " + newOff + " " + off + ") " + lo + ")")
+			// a position named through the operand is also a position of the new slice: lets
+			// quantified facts about the new slice (callee postconditions) fire on operand indices
+			vc.assume("(forall ((c!q (_ BitVec 64))) (! (= (ix " + off + " c!q) (ix " + newOff + " (bvsub c!q " + lo + "))) :pattern ((ix " + off + " c!q))))")
 		}
 	}
 	r := SV{L: []string{base,
